@@ -91,3 +91,23 @@ Theorem C16_never_on_a_version_older_than_the_announcement : forall c inst u st 
   step_handler c inst u st fn n e s = (Err EGen, s1).
 Proof. exact future_event_retried. Qed.
 Print Assumptions C16_never_on_a_version_older_than_the_announcement.
+
+(* THE VERSION IDENTIFIES THE WRITE (proofs/HistVersions.v; every history): among all committed writes two writes of one run with
+   one version are the same write; every record a token shows as persisted — the record a Store replaced, the persisted record
+   beside an invocation, the answer of a Lookup / Latest (a lagging replica's answer included) — is a committed write; every
+   committed write was made by a Store call the trace shows, which replaced the previous write of that run *)
+From WF Require Import proofs.HistVersions.
+Theorem C16_version_identifies_the_write : forall c ops, hist_ok ops ->
+  forall x y, In x (w_hist (fst (run_ops c ops))) -> In y (w_hist (fst (run_ops c ops))) -> r_run x = r_run y -> r_ver x = r_ver y -> x = y.
+Proof. exact version_identifies_write. Qed.
+Print Assumptions C16_version_identifies_the_write.
+
+Theorem C16_shown_records_are_committed_writes : forall c ops, hist_ok ops -> forall t x,
+  In t (trace_of c ops) -> shows t x -> In x (w_hist (fst (run_ops c ops))).
+Proof. exact shown_records_are_writes. Qed.
+Print Assumptions C16_shown_records_are_committed_writes.
+
+Theorem C16_every_write_replaces_the_previous_one : forall c ops, hist_ok ops ->
+  forall h1 x h2, w_hist (fst (run_ops c ops)) = h1 ++ x :: h2 -> exists a, In (TStore (lastrun h1 x) x a) (trace_of c ops).
+Proof. exact writes_are_announced. Qed.
+Print Assumptions C16_every_write_replaces_the_previous_one.
